@@ -3,7 +3,7 @@
    returns the projected observables as byte strings.  Integers travel as 8-byte
    big-endian two's complement. *)
 From Gen Require Import Consts.
-From Model Require Import Bytes Entries Prim Tables ExtCrypto Cert KAC Mapping Sig LS RI Time Crypto Base Addr Heap Enc.
+From Model Require Import Bytes Entries Prim Tables ExtCrypto Cert KAC Mapping Sig LS Validate RI Time Crypto Base Addr Heap Enc.
 Open Scope N_scope.
 
 Definition argZ (b : bytes) : Z := wrap64 (Z.of_N (be_decode b)).
@@ -175,6 +175,10 @@ Definition run_struct (e : N) (a : list bytes) : option (res (list bytes)) :=
   else if e =? E_OffSizes then Some (let t := argZ a0 in Ok [outZ (off_spk_size t); outZ (off_sig_size t)])
   else if e =? E_DestAllowed then Some (Ok [outB (negb (dest_crypto_denied (argZ a1)) && negb (dest_signing_denied (argZ a0)))])
   else if e =? E_RIAllowed then Some (Ok [outB (negb (ri_signing_denied (argZ a0)) && negb (ri_crypto_denied (argZ a1)))])
+  (* validators regenerated from the Go source (Gen/Validators.v), run on model values *)
+  else if e =? E_LS2Validate then Some (do p <- read_lease_set2 a0; Ok [outB (ls2_validate (fst p))])
+  else if e =? E_NewLS2Check then Some (Ok [outB (new_ls2_check true (argN a0) (argN a1) (arg 2 a) (arg 3 a) (argN (arg 4 a)))])
+  else if e =? E_NewELSCheck then Some (Ok [outB (new_els_check (argN a0) a1 (argN (arg 2 a)) (argN (arg 3 a)) (arg 4 a) (arg 5 a))])
   else None.
 
 (* unknown entry: reported with a distinguished marker *)
